@@ -92,10 +92,15 @@ def _dec2base(value, places=None, base=16):
     if places is None:
         places = 0
     else:
+        if places in ERROR_CODES:
+            return places
+        places = coerce_to_number(places)
+        if isinstance(places, str):
+            return VALUE_ERROR
         places = int(places)
         if places < len(value):
             return NUM_ERROR
-    return value.zfill(int(places))
+    return value.zfill(places)
 
 
 def _base2base(value, places=None, base_in=16, base_out=16):
